@@ -226,6 +226,31 @@ pub fn run_property(prop: &str, tier: &str, threads: usize, budget: &Budget, fin
             sweeps::c17_zoo(&scx, quick, threads);
             report.add_probe(stats.to_json("representation-zoo", 0, true));
         }
+        "C20" => {
+            report.rule = "the wide graph explored by this very build configuration (features x profile are fixed at compile time; the driver builds and runs six of them plus the main engine build and compares states/transitions/digest per level), with the C01+C02+C03 oracles on and, in every visited state, for every handle: last byte in 0x00..=0xD1 and different from the byte the compiler stores for None::<LeanString>, Some(clone) round-trips; compile-time layout facts; every possible 16th byte of a full inline string and heap/static strings of many lengths through the Option round trip".into();
+            let d: usize = std::env::var("LSVERIF_DEPTH").ok().and_then(|s| s.parse().ok()).unwrap_or(if quick { 3 } else { 4 });
+            report.bounds.push(format!("configuration: debug_assertions={} features: std={} serde={} arbitrary={}", cfg!(debug_assertions), cfg!(feature = "ls-std") || cfg!(feature = "ls-all"), cfg!(feature = "ls-all"), cfg!(feature = "ls-all")));
+            // compile-time facts, asserted at run time so that a failure is a finding, not a build error
+            let w = std::mem::size_of::<usize>();
+            let facts = [
+                ("size_of::<LeanString>() == 2 words", std::mem::size_of::<lean_string::LeanString>() == 2 * w),
+                ("size_of::<Option<LeanString>>() == 2 words", std::mem::size_of::<Option<lean_string::LeanString>>() == 2 * w),
+                ("align_of::<LeanString>() == align_of::<usize>()", std::mem::align_of::<lean_string::LeanString>() == std::mem::align_of::<usize>()),
+                ("align_of::<Option<LeanString>>() == align_of::<usize>()", std::mem::align_of::<Option<lean_string::LeanString>>() == std::mem::align_of::<usize>()),
+            ];
+            let sp = sweeps::sweep_profile();
+            for (name, ok) in facts {
+                if !ok {
+                    findings.add(&sp, &[], &crate::oracle::Viol { prop: "C20", oracle: "layout", detail: format!("{name} does not hold") }, "layout", "-", name);
+                }
+            }
+            bfs(&env, report, &wide, Roots::Empty, d, props, true);
+            bfs(&env, report, &wide, Roots::Seeds, 1, props, true);
+            let stats = ProbeStats::default();
+            let scx = SweepCtx { prof: &sp, findings, stats: &stats };
+            sweeps::c20_sweep(&scx, quick);
+            report.add_probe(stats.to_json("niche-sweep", 0, true));
+        }
         "C18" => {
             report.rule = "for every stored state: retain / try_retain with each of 4 predicates panicking at its k-th call (every k); extend with 7 item kinds x {honest, zero} size hints with next() panicking at its k-th call (every k up to items+1); collect with the same iterators; to_lean_string / try_to_lean_string on a Display that panics after j pieces; reference = String under the same callback; afterwards all other handles unchanged, reference counts consistent, closing leaves zero live blocks; distinct = distinct (call, target storage, outcome)".into();
             let dw = if quick { 2 } else { 3 };
